@@ -13,7 +13,9 @@
 (***************************************************************************)
 EXTENDS Emit
 
-CONSTANTS PermuteModules   \* TRUE: modules may be added in any order
+CONSTANTS PermuteModules,  \* TRUE: modules may be added in any order
+          AllSchedules     \* TRUE: every pick order in every pass; FALSE: one fixed order (groups whose
+                           \* properties do not quantify over schedules; C09/C10/C12 always use TRUE)
 
 VARIABLES input,   \* [ptr, mods : Seq(Module)]  -- chosen initially, never changes
           phase,   \* "adding" | "pass" | "externs" | "emit" | "done" | "failed"
@@ -131,7 +133,7 @@ DoAttempt(p) ==
 
 AttemptStep ==
   /\ phase = "pass"
-  /\ \E p \in todo : DoAttempt(p)
+  /\ \E p \in (IF AllSchedules \/ todo = {} THEN todo ELSE {CHOOSE q \in todo : TRUE}) : DoAttempt(p)
   /\ UNCHANGED <<input, added, start, out>>
 
 EndPass ==
@@ -180,6 +182,10 @@ Termination == <>Terminal
 Total == Terminal \/ ENABLED (\E mi \in DOMAIN input.mods : AddModule(mi))
            \/ ENABLED BeginPass \/ ENABLED AttemptStep \/ ENABLED EndPass
            \/ ENABLED ResolveExterns \/ ENABLED EmitAll
+
+(* standard VIEW: schedule history hidden, and the bookkeeping of the last pass ignored once *)
+(* the behaviour is over, so one input has one terminal state per distinct outcome          *)
+StdView == <<input, phase, added, mods, reg, IF Terminal THEN {} ELSE start, IF Terminal THEN {} ELSE todo, err, out>>
 
 Accepted == phase = "done"
 Rejected == phase = "failed"
